@@ -31,6 +31,8 @@ REAL = {
                  "perf_counter_ns")
 }
 
+REAL_RANDOM = {name: getattr(_random, name) for name in ("uniform", "random")}
+
 REPO_SRC = os.environ.get("VERIF_REPO_SRC", "/repo/src")
 
 
@@ -120,13 +122,13 @@ class OwnedRandom:
     def uniform(self, a, b):
         CLOCK.rand_calls += 1
         if CLOCK.global_rng:
-            return _random.uniform(a, b)   # the stream every other user of `random` shares
+            return REAL_RANDOM["uniform"](a, b)   # the stream every other user of `random` shares
         return a + (b - a) * CLOCK.frac
 
     def random(self):
         CLOCK.rand_calls += 1
         if CLOCK.global_rng:
-            return _random.random()
+            return REAL_RANDOM["random"]()
         f = CLOCK.frac
         return f if f < 1.0 else 1.0 - 2.0 ** -53
 
@@ -173,6 +175,12 @@ def install():
     import redress.extras  # noqa: F401
 
     _strat.random = OwnedRandom()
+    # any other module of the library that draws from `random` gets the owned draws as well (the
+    # two functions a backoff computation uses; anything else stays real and is caught by the
+    # determinism self-check as unowned nondeterminism, not reported as a violation)
+    _owned = OwnedRandom()
+    _random.uniform = _owned.uniform
+    _random.random = _owned.random
     if hasattr(_http, "datetime"):
         _http.datetime = OwnedDatetime
     _installed = True
